@@ -50,6 +50,7 @@ fn expected_close(fd: RawFd, kind: Kind) -> W {
 //   queue full        => no request; regular: exactly one close(fd); direct: exactly one
 //                        REGISTER_FILES_UPDATE{offset = fd, fds = [-1]}.
 // =========================================================================================
+//@waker_stubs
 #[kani::proof]
 #[kani::unwind(3)]
 fn c07_drop() {
